@@ -28,4 +28,81 @@ def run(chk):
     rp1 = run_rules(chk, "C11", ["cholesky"], default_spec=spec)
     spec2 = dict(dtypes=[np.float64, np.complex128], anns=[()])
     rp2 = run_rules(chk, "C11", ["plu"], default_spec=spec2)
-    return rp1
+    for ob in plu_diagonal_entrywise():
+        chk.add(ob)
+
+    def replayer(ob):
+        w = ob.witness or {}
+        if w.get("engine") == "PLUDIAG":
+            return plu_diag_replay()
+        return rp1(ob)
+    return replayer
+
+
+def plu_diagonal_entrywise():
+    """plu(Diagonal) entry by entry (index domain), real dtype, EVERY non-singular diagonal (either sign).  The ALG run above treats the square root the rule uses
+    as the mathematical principal root (sqrt(A) sqrt(A) = A); for a real array NumPy's sqrt of a negative entry is NaN, which only the entrywise run can see: the
+    real-dtype square root is the atom rsqrt with rsqrt(x)^2 = x for x >= 0 only.  Obligations: P = I, L lower and U upper triangular (diagonal), (L U)_ii = d_i."""
+    import z3
+    from props import krylov_common as K
+    from props.c10 import find_impl  # noqa
+    from vcgen import idx, kidx
+    from vcgen.idx import IArr, ents_expr
+    from vcgen.proxy import CTX, Unsupported, iterm
+    from vcgen.rules import sym_dim
+    from vcgen.tab import live_table
+    from cola.ops import operators as O
+
+    def impl_of():
+        F = live_table()["plu"]
+        for s_ in F._resolver.signatures:
+            if "Diagonal" in str(s_.types[0]):
+                return getattr(s_.implementation, "__wrapped__", s_.implementation)
+        raise Unsupported("no plu rule for Diagonal in the live table")
+
+    def thunk():
+        n = sym_dim("n")
+        d = IArr.const("d", (n,), np.float64)
+        i = z3.Int(CTX.fresh("i"))
+        CTX.assume(z3.And(i >= 0, i < n.term))
+        di = kidx.one(d, i)
+        CTX.assume(di != 0)                      # non-singular: no zero on the diagonal (sign unconstrained)
+        rs = kidx.RSQRT(di)
+        CTX.assume(z3.Implies(di >= 0, z3.And(rs >= 0, idx._mulv(rs, rs) == di)))     # dependency contract of the real square root, instance at d_i: defined (and a root) for d_i >= 0 only
+        A = O.Diagonal(d)
+        P, L, U = impl_of()(A)
+        goals = [("P is the identity", z3.And(z3.BoolVal(type(P).__name__.startswith("Identity")), iterm(P.shape[0]) == n.term))]
+        def diag_of(X):
+            if type(X).__name__.startswith("Identity"):
+                return z3.RealVal(1)
+            if hasattr(X, "diag"):
+                return ents_expr(X.diag.at(i))
+            raise Unsupported(f"factor of kind {type(X).__name__}")
+        goals.append(("L and U are diagonal (structure kept; lower / upper triangular)", z3.BoolVal(all(type(X).__name__.split("[")[0] in ("Diagonal", "Identity") for X in (L, U)))))
+        goals.append(("(P L U)_ii = d_i for a diagonal entry of either sign", idx._mulv(diag_of(L), diag_of(U)) == di))
+        return goals
+    return K.run_paths("C11/plu(Diagonal)[real dtype; entries of either sign]", "cola.linalg.decompositions.decompositions.plu", thunk, dict(engine="PLUDIAG"),
+                       keep_real=("plu", "sqrt", "apply_unary", "pow"))
+
+
+def plu_diag_replay():
+    import json
+    import subprocess
+    code = r'''
+import json, numpy as np, cola
+from cola.ops import Diagonal, ScalarMul
+from cola.linalg.decompositions.decompositions import plu
+out = dict(replayed=True, failing_input_found=False)
+for name, op in (("Diagonal([1, -2, 3])", Diagonal(np.array([1., -2., 3.]))), ("ScalarMul(-2, 3x3)", ScalarMul(-2.0, (3, 3), np.float64)), ("Diagonal([2, 5])", Diagonal(np.array([2., 5.])))):
+    P, L, U = plu(op)
+    R = np.asarray(P.to_dense()) @ np.asarray(L.to_dense()) @ np.asarray(U.to_dense())
+    if not np.allclose(R, np.asarray(op.to_dense())):
+        out = dict(replayed=True, failing_input_found=True, input=f"plu({name})", observed=f"diag(P L U) = {np.diag(R).tolist()}", expected=str(np.diag(np.asarray(op.to_dense())).tolist()))
+        break
+print(json.dumps(out))
+'''
+    p = subprocess.run(["/venv/bin/python", "-W", "ignore", "-c", code], cwd="/repo", capture_output=True, text=True, timeout=300)
+    try:
+        return json.loads(p.stdout.strip().splitlines()[-1])
+    except Exception:
+        return dict(replayed=False, failing_input_found=False, error=(p.stdout + p.stderr)[-500:])
